@@ -58,9 +58,12 @@ NoSig == [role |-> "meth", ret |-> [b |-> "void", m |-> "val", c |-> 0], ps |-> 
 \* ra: the alias a signature names its type through (0 = none), uw: how the alias is used ("ptr" | "cref" | "val")
 \* nm: the declared name when it is not the entity's unique marker (an operator, an overloaded name)
 \* gi: the member (an accessor function of the same class) a MAKE_PROPERTY / MAKE_SEQ names (0 = none)
-Mem(k, lab) == [k |-> k, lab |-> lab, rc |-> 0, ri |-> 0, ra |-> 0, gi |-> 0, uw |-> "", nm |-> "", sig |-> NoSig, cm |-> ""]
+\* re: later declarations of the same function (redeclarations at namespace scope, the out-of-class definition of a
+\*     member), each [n |-> parameters are named, cm |-> comment style]; defaults and the first comment live in sig / cm
+Mem(k, lab) == [k |-> k, lab |-> lab, rc |-> 0, ri |-> 0, ra |-> 0, gi |-> 0, uw |-> "", nm |-> "", sig |-> NoSig, cm |-> "",
+                re |-> <<>>]
 Top(k, region, ns) == [k |-> k, file |-> 1, region |-> region, ns |-> ns, rc |-> 0, ri |-> 0, ra |-> 0, uw |-> "",
-                       sig |-> NoSig, cm |-> ""]
+                       sig |-> NoSig, cm |-> "", re |-> <<>>]
 NoCmd == [c |-> "none", k |-> 0, i |-> 0]
 
 NC == Len(lib.classes)
@@ -124,12 +127,14 @@ AddFile ==
 \* what a signature may refer to: an earlier complete class, or an enum declared earlier in class c
 ClassRefs(c) == {r \in 1..NC : r # c /\ (c = 0 \/ r # Cls(c).outer)}
 \* plain, scoped (enum class), written on one line, written on one line with a comment in the enumerator list
-EnumKinds == {"enum", "senum", "enum1", "enumc"}
+\* ... or with an enumerator initialised by an expression the tool does not evaluate (sizeof)
+EnumKinds == {"enum", "senum", "enum1", "enumc", "enumz"}
 EnumRefs(c) == IF c = 0 THEN {} ELSE {i \in 1..NM(c) : Mbr(c, i).k = "enum"}
 NeedsRef(k) == k \in {"usep", "user", "datap", "dataa", "usef", "tdefc", "ctorof"}
 \* __make_property(name, getter) names a "getter" member, __make_seq(name, num_getter, element_getter) a "seqget" member
 NeedsGetter(k) == k \in {"mprop", "mseq"}
-GetterRefs(c, k) == {i \in 1..NM(c) : Mbr(c, i).k = (IF k = "mprop" THEN "getter" ELSE "seqget")}
+\* ("getter2" takes two arguments, "seqbad"'s element accessor takes a float: unsuitable, but nameable)
+GetterRefs(c, k) == {i \in 1..NM(c) : Mbr(c, i).k \in (IF k = "mprop" THEN {"getter", "getter2"} ELSE {"seqget", "seqbad"})}
 NeedsEnum(k) == k \in {"usee"}
 NeedsAlias(k) == k \in {"usea", "reta", "usefa"}
 
@@ -261,6 +266,12 @@ RemapT(t) == IF t.b = "cls" THEN [t EXCEPT !.m = IF t.m \in {"cptr", "cref"} THE
 RECURSIVE TrailingDefaults(_)
 TrailingDefaults(ps) == IF ps = <<>> \/ ~ps[Len(ps)].d THEN 0 ELSE 1 + TrailingDefaults(SubSeq(ps, 1, Len(ps) - 1))
 DefaultsTrail(ps) == \A q \in 1..Len(ps) : ps[q].d => \A r \in q..Len(ps) : ps[r].d
+
+\* several declarations of one function: a parameter is named if ANY declaration names it (all use the same name here),
+\* default arguments accumulate (here: given on the first declaration), each comment belongs to its own declaration
+MergedSig(m) == [m.sig EXCEPT !.ps = [q \in 1..Len(m.sig.ps) |->
+                   [m.sig.ps[q] EXCEPT !.n = m.sig.ps[q].n \/ \E r \in 1..Len(m.re) : m.re[r].n]]]
+DeclComments(m) == <<m.cm>> \o [r \in 1..Len(m.re) |-> m.re[r].cm]
 
 \* roles of a member function: "meth" | "const" | "static" | "virt" | "ctor"
 HasThis(role) == role \notin {"static", "ctor"}
